@@ -578,11 +578,39 @@ func (g *Gen) discharge(fcs []*FnCtx, filter func(*Oblig) bool) {
 			if filter != nil && !filter(o) {
 				continue
 			}
+			if o.Lazy {
+				continue
+			}
 			fc, o := fc, o
 			wg.Add(1)
 			go func() {
 				defer wg.Done()
 				o.Query = fc.buildQuery(o)
+				if o.QFOnly {
+					r := runPortfolio(o.Name, stripQuantified(o.Query), 5, g.seed)
+					o.Result = r
+					switch r.Verdict {
+					case "sat":
+						o.Status = "cover-ok-qf"
+					case "unsat":
+						o.Status = "cover-vacuous"
+						if o.Before != nil {
+							// was the call reachable at all? (a path that is dead under the caller's own assumptions is fine)
+							bq := stripQuantified(fc.buildQuery(o.Before))
+							rb := runPortfolio(o.Before.Name, bq, 5, g.seed)
+							o.Before.Result = rb
+							if rb.Verdict == "sat" {
+								o.Before.Status = "cover-ok-qf"
+							} else {
+								o.Before.Status = "cover-dead-path"
+								o.Status = "cover-dead-path"
+							}
+						}
+					default:
+						o.Status = "cover-undecided"
+					}
+					return
+				}
 				to := g.timeoutS
 				if o.Cover && to > 3 {
 					to = 3 // a cover that needs longer falls back to its quantifier-free part
@@ -901,4 +929,16 @@ func recSignature(d string) (string, bool) {
 		}
 	}
 	return "(declare-fun " + name + " (" + strings.Join(sorts, " ") + ") " + ret + ")", true
+}
+
+// stripQuantified drops the quantified assertions of a query.
+func stripQuantified(q string) string {
+	var qf []string
+	for _, l := range strings.Split(q, "\n") {
+		if strings.HasPrefix(l, "(assert") && (strings.Contains(l, "(forall ") || strings.Contains(l, "(exists ")) {
+			continue
+		}
+		qf = append(qf, l)
+	}
+	return strings.Join(qf, "\n")
 }
